@@ -205,6 +205,19 @@ def site_pair_matrices(types, rho):
 # array versions (same relations, used where the reference is evaluated after
 # every cost evaluation of a solver trajectory)
 
+def tail_value(pspec, ri, sigma):
+    """Documented form outside the core evaluated at ri, whatever side of sigma ri is on (hard-core family only)."""
+    name, p = pspec
+    if name == 'HS':
+        return 0.0
+    if name == 'HCLJ':
+        x = sigma / ri
+        return p['epsilon'] * (x ** 12 - 2.0 * x ** 6)
+    if name == 'EXP':
+        return -p['epsilon'] * math.exp(-(ri - sigma) / p['alpha'])
+    raise KeyError(name)
+
+
 def ref_potential_vec(pspec, r, sigma):
     name, p = pspec
     r = np.asarray(r, dtype=float)
